@@ -78,7 +78,10 @@ def futures_world(h, symbols=('BTC-USDT',), leverage=None, mode='isolated', with
     w.positions = {}
     w.L = L
     w.fee = fee
-    strat = Obj(None, {'leverage': L, 'name': 'S', 'timeframe': '1m', 'trades_count': 0}, name='strategy') if with_strategy else None
+    w.hook_calls = []
+    strat = Obj(None, {'leverage': L, 'name': 'S', 'timeframe': '1m', 'trades_count': 0,
+                       '_on_updated_position': Builtin('_on_updated_position', lambda i, a, k: w.hook_calls.append(tuple(a)))},
+                name='strategy') if with_strategy else None
     w.strategy = strat
     for s in symbols:
         base = s.split('-')[0]
@@ -161,3 +164,14 @@ def trades_store(h, trace=None):
     store = Obj(None, {'completed_trades': ct, 'app': app}, name='store')
     h.ctx.cfg.globals['jesse.store.store'] = lambda i: store
     return store, trace
+
+
+def mk_table(h, name, cols=2):
+    """a DynamicNumpyArray((10, cols)) in an arbitrary state satisfying the C18 representation invariant
+    (used modularly: C18 proves every operation preserves it)"""
+    cls = repo().find('jesse.libs.dynamic_numpy_array.DynamicNumpyArray')
+    cap = h.int(name + '.cap', 1)
+    idx = h.int(name + '.index', -1)
+    h.assume(ops.compare('<=', ops.arith('+', idx, 1), cap))
+    arr = h.ctx.fresh_arr(name + '.array', n=cap, np=True, cols=cols)
+    return Obj(cls, {'index': idx, 'array': arr, 'bucket_size': 10, 'shape': (10, cols), 'drop_at': None}, name=name)
